@@ -182,6 +182,8 @@ def run_nested(kinds, programs, chooser=None, instr="private", free=False):
     obs = {"results": results, "schedule": list(ctl.effective), "enabled": ctl.enabled_log,
            "seg_labels": list(ctl.seg_labels), "instr": instr,
            "completed": completed and all(not t.is_alive() for t in ths), "_objs": objs}
+    if ctl.degraded:
+        obs["blocked"] = ctl.degraded
     for o in objs:
         if getattr(o, "_verif_instr_error", None):
             obs["degraded"] = o._verif_instr_error
@@ -347,7 +349,9 @@ def check(ctx, drv, kinds, programs, chooser, tag, instr="private"):
         ctx.violation(signature(kinds, bad), {"case": case, "failed": [bad[0], bad[1]]},
                       f"nested queries on {'+'.join(kinds)}: {bad[0]} {bad[1]}")
         return obs, False
-    if obs.get("degraded"):
+    if obs.get("blocked"):
+        ctx.count("runs_with_a_thread_blocked_outside_the_controller")
+    elif obs.get("degraded"):
         if not _DEGRADED.get("obs"):
             _DEGRADED["obs"] = obs["degraded"]
             ctx.corr_broken("nested: private state could not be observed: " + obs["degraded"], case)
